@@ -89,6 +89,12 @@ CHECKS = {
    note="Metrics come from integer-valued tensors (power-of-two numel) so mean_abs is an exact small rational; (graph, rtol) pairs within 1e-9 of the isclose threshold are skipped.",
    technique="TLA+ graph-rewriting spec + TLC over all small graphs; trace validation of real pruning runs",
    design="4/C19"),
+ "C16": dict(
+   spec="spec/UnitScale.tla, UnitScale_MC.tla, UnitScale_Trace.tla",
+   text="UnitScale models the passes of unit_scaling_backend one loop iteration per step (with FX's replace/erase/iteration rules, the user map, dependency snapshots, residual classification, split/getitem/add insertion, unconstraining) next to an order-independent RECIPE (the User-Guide conversion as a map from the input graph). TLC runs the algorithm on every graph with 2 placeholders and 3 op nodes (1.65M states) and checks that its output term equals the recipe's and that the result executes, that the linear-time graph matching used for traces coincides with term equality, and (thorough) refutes the two pre-fix deviations and explores 5-op graphs by simulation. Random well-nested real FX graphs of 1-16 ops (nested residual blocks, skips that are inputs / residual outputs / plain sums, plain, scalar and in-place adds, user replacements) go through the real backend and are executed; (input graph, result graph, exception) is validated against the recipe by UnitScale_Trace; a module family goes through unit_scale()/TorchDynamo incl. torch.nn wrappers, weight re-initialisation and the untouched original.",
+   note="Gating = the recipe (property level); disagreement with the step-by-step algorithm model is reported as drift only. The family predicate (well-nested, no dead nodes) is part of the spec. F.softmax's private _stacklevel keyword is dropped by the built-in map (named in the spec).",
+   technique="TLA+ algorithm-refines-recipe spec + TLC over all small graphs; trace validation of real backend runs against the recipe",
+   design="4/C16"),
 }
 CHECKS = dict(sorted(CHECKS.items()))
 
